@@ -54,6 +54,10 @@ Proof.
   unfold cp_read, cp_marshal, ow_get, ref_read. rewrite H3, H2. cbn. auto.
 Qed.
 
+Theorem live_read_lemma (v0 : T) (ops : list (cop T)) :
+  cp_read (crun (cp_new v0) ops) = ref_read ops v0.
+Proof. exact (proj1 (override_wins_not_saved_lemma v0 ops)). Qed.
+
 (* what the listeners are told by each operation is the value Read returns after it *)
 Theorem told_is_read_lemma (v0 : T) (ops : list (cop T)) (op : cop T) :
   let p := crun (cp_new v0) ops in
